@@ -5,8 +5,10 @@ import JominiModel.Proofs.TextDeStream
 import JominiModel.Proofs.TextDeTape
 import JominiModel.Proofs.TextDeTapeNested
 import JominiModel.Proofs.TextEndToEnd
+import JominiModel.Proofs.TextEndToEndFull
 import JominiModel.Proofs.TextDeKnown
 import JominiModel.Proofs.TextDeAgree
+import JominiModel.Proofs.TextDeSyntax
 /-
 C02 — Text deserialization returns the document's values on both parse paths.
 Only property theorems live here; helper lemmas are in `Proofs/TextDe*.lean`.
@@ -61,8 +63,10 @@ theorem C02_option_unknown (enc : Enc) :
 
 example : structFinish [([97], .opt .i64), ([98], .str)] 0 [(1, .str [120])] = .ok [([97], .none), ([98], .str [120])] := by rfl
 
-/-- The streaming deserializer, run on the reader tokens of a save-style document (scalars, objects,
-arrays, header values such as `rgb { 1 2 3 }`), returns the document's value, for every encoding and
+/-- The streaming deserializer, run on the reader tokens of a document (scalars -- variables `@x`
+included, they are unquoted scalars --, objects, arrays, header values such as `rgb { 1 2 3 }`; keys
+quoted or not, with any operator, with the `=` left out before a `{`, with empty `{}` in front of the key
+or behind the value: `Key`), returns the document's value, for every encoding and
 every root target type that requests the document's shape: typed scalars, strings, enums, `Option`,
 `Property` with every operator, sequences, maps, structs with missing / duplicated / unknown fields
 (the unknown field's value is skipped at arbitrary nesting); error results included (the two sides
@@ -79,9 +83,9 @@ theorem C02_stream_eq_spec (enc : Enc) (ty : Ty) (d : Doc)
 value, a Property with an operator, a missing Option and a sequence:
 `a > 12  zz = { q = rgb { r } }  l = { x "y" }` -/
 example :
-    let d : Doc := [([97], .gt, .leaf ⟨[49, 50], false⟩),
-                    ([122, 122], .eq, .obj [([113], .eq, .hdr [114, 103, 98] (.arr [.leaf ⟨[114], false⟩]))]),
-                    ([108], .eq, .arr [.leaf ⟨[120], false⟩, .leaf ⟨[121], true⟩])]
+    let d : Doc := [(.plain [97], .gt, .leaf ⟨[49, 50], false⟩),
+                    (.plain [122, 122], .eq, .obj [(.plain [113], .eq, .hdr [114, 103, 98] (.arr [.leaf ⟨[114], false⟩]))]),
+                    (.plain [108], .eq, .arr [.leaf ⟨[120], false⟩, .leaf ⟨[121], true⟩])]
     let ty : Ty := .st [([97], .prop .i64), ([108], .seq .str), ([111], .opt .bool)]
     Ty.isRoot ty = true ∧ wfFields d = true ∧ Fits .w1252 ty (.obj d) ∧
     deStream .w1252 ty (lexemes d) =
@@ -126,10 +130,10 @@ theorem C02_paths_agree (enc : Enc) (ty : Ty) (d : Doc)
 /-- the hypotheses are satisfiable by a nested document: `a > 12  c = rgb { 1 }  u = { x = { y } }  l = { { p = q } }`
 into `st(a:prop(i64); c:str; l:seq(map(str)); o:opt(bool))` (`u` unknown, `o` missing) -/
 example :
-    let d : Doc := [([97], .gt, .leaf ⟨[49, 50], false⟩),
-                    ([99], .eq, .hdr [114, 103, 98] (.arr [.leaf ⟨[49], false⟩])),
-                    ([117], .eq, .obj [([120], .eq, .arr [.leaf ⟨[121], false⟩])]),
-                    ([108], .eq, .arr [.obj [([112], .eq, .leaf ⟨[113], true⟩)]])]
+    let d : Doc := [(.plain [97], .gt, .leaf ⟨[49, 50], false⟩),
+                    (.plain [99], .eq, .hdr [114, 103, 98] (.arr [.leaf ⟨[49], false⟩])),
+                    (.plain [117], .eq, .obj [(.plain [120], .eq, .arr [.leaf ⟨[121], false⟩])]),
+                    (.plain [108], .eq, .arr [.obj [(.plain [112], .eq, .leaf ⟨[113], true⟩)]])]
     let ty : Ty := .st [([97], .prop .i64), ([99], .str), ([108], .seq (.map .str)), ([111], .opt .bool)]
     Ty.isRoot ty = true ∧ wfFields d = true ∧ FitsT .utf8 false ty (.obj d) ∧
     deTape .utf8 ty (tapeOf d) =
@@ -161,6 +165,119 @@ example :
     obtain ⟨_, _, rfl⟩ := hm
     exact FitsT.scalar rfl
 
+/-! ### what the full text syntax adds -/
+
+/-- Operators other than `=` are dropped by every target that is not a `Property`: under a target type
+without `Property` the value of a document is the value of the document with every operator (at any
+depth) replaced by `=`.  Both paths compute `valueOf` (`C02_stream_eq_spec`, `C02_tape_eq_spec`), so
+both drop them. -/
+theorem C02_operator_dropped (enc : Enc) (ty : Ty) (d : Doc) (hp : propFree ty = true) :
+    valueOf enc ty d = valueOf enc ty (eqOpsF d) :=
+  valueOf_eqOps enc ty d hp
+
+/-- `a >= 5  b < x` into `st(a:i64; b:str)` on both paths: the operators leave no trace -/
+example :
+    let d : Doc := [(.plain [97], .ge, .leaf ⟨[53], false⟩), (.plain [98], .lt, .leaf ⟨[120], false⟩)]
+    let ty : Ty := .st [([97], .i64), ([98], .str)]
+    deTape .utf8 ty (tapeOf d) = .ok (.st [([97], .int 5), ([98], .str [120])]) ∧
+    deStream .utf8 ty (lexemes d) = .ok (.st [([97], .int 5), ([98], .str [120])]) := by
+  constructor <;> rfl
+
+/-- quoted key, ghost `{}` in front of a key and behind a value, the `=` left out before `{`, a variable
+as a scalar -- `"a"=@x  {} {} b{ c=1 {} }  d={ {} e=2 }`: both paths, the same value as the plain writing -/
+example :
+    let d : Doc := [(⟨[97], true, 0, false, 0⟩, .eq, .leaf ⟨[64, 120], false⟩),
+                    (⟨[98], false, 2, true, 0⟩, .eq, .obj [(⟨[99], false, 0, false, 1⟩, .eq, .leaf ⟨[49], false⟩)]),
+                    (.plain [100], .eq, .obj [(⟨[101], false, 1, false, 0⟩, .eq, .leaf ⟨[50], false⟩)])]
+    let ty : Ty := .st [([97], .str), ([98], .map .i64), ([100], .st [([101], .u8)])]
+    lexemes d = [.quo [97], .op .eq, .unq [64, 120], .open_, .close, .open_, .close, .unq [98], .open_, .unq [99],
+                 .op .eq, .unq [49], .open_, .close, .close, .unq [100], .op .eq, .open_, .open_, .close, .unq [101],
+                 .op .eq, .unq [50], .close] ∧
+    deTape .utf8 ty (tapeOf d) = .ok (.st [([97], .str [64, 120]), ([98], .map [(.str [99], .int 1)]), ([100], .st [([101], .uint 2)])]) ∧
+    deStream .utf8 ty (lexemes d) = deTape .utf8 ty (tapeOf d) := by
+  refine ⟨by rfl, by rfl, by rfl⟩
+
+/-- Mixed containers stay outside the document type, the paths differ there: from the BYTES
+`a={ b=1 c d }` into `st(a:map(str))` both parsers succeed, the tape path (synthetic `remainder` key
+with the rest as an array) refuses, the reader path reads `c = d` as a field. -/
+theorem C02_mixed_container_paths_differ :
+    ∃ T b, TextTape.parse Jomini.TextE2E.bytesMixed = .ok T b ∧
+      (TextReader.sliceTokens Jomini.TextE2E.bytesMixed).out = .end_ ∧
+      deTape .utf8 Jomini.TextE2E.tyMixed (Jomini.TextE2E.toTextDeTape T) ≠
+        deStream .utf8 Jomini.TextE2E.tyMixed ((TextReader.sliceTokens Jomini.TextE2E.bytesMixed).toks.map Jomini.TextE2E.toRTok) :=
+  Jomini.TextE2E.bytesDiffer_sound Jomini.TextE2E.mixed_differ
+
+/-- The `=` may not be left out on the FIRST field of a nested container, the paths differ there:
+from the BYTES `a={ b{ c=1 } d=2 }` the tape parser reads an array that starts with `b` (and turns
+mixed), the reader path still sees the field `b`. -/
+theorem C02_implicit_eq_first_field_paths_differ :
+    ∃ T b, TextTape.parse Jomini.TextE2E.bytesFirstImplicit = .ok T b ∧
+      (TextReader.sliceTokens Jomini.TextE2E.bytesFirstImplicit).out = .end_ ∧
+      deTape .utf8 Jomini.TextE2E.tyFirstImplicit (Jomini.TextE2E.toTextDeTape T) ≠
+        deStream .utf8 Jomini.TextE2E.tyFirstImplicit
+          ((TextReader.sliceTokens Jomini.TextE2E.bytesFirstImplicit).toks.map Jomini.TextE2E.toRTok) :=
+  Jomini.TextE2E.bytesDiffer_sound Jomini.TextE2E.firstImplicit_differ
+
+/-- Parameter blocks stay outside the document type, the paths differ there: from the BYTES
+`a=1 [[x] b=2 ] c=3` the tape parser writes a `Parameter` token with an object, the reader's lexer has
+no parameter syntax (the brackets are scalars) and the key / value phase slips: `c` is read by the tape
+path only. -/
+theorem C02_parameter_block_paths_differ :
+    ∃ T b, TextTape.parse Jomini.TextE2E.bytesParam = .ok T b ∧
+      (TextReader.sliceTokens Jomini.TextE2E.bytesParam).out = .end_ ∧
+      deTape .utf8 Jomini.TextE2E.tyParam (Jomini.TextE2E.toTextDeTape T) ≠
+        deStream .utf8 Jomini.TextE2E.tyParam ((TextReader.sliceTokens Jomini.TextE2E.bytesParam).toks.map Jomini.TextE2E.toRTok) :=
+  Jomini.TextE2E.bytesDiffer_sound Jomini.TextE2E.param_differ
+
+/-! ### fixed-length targets (tuples, `[T; n]`) -/
+
+/-- A fixed-length target on an array that is LONGER than the target, the exact behaviour of both paths
+(elements that fit): the tape path reads the tuple's elements from the front and never looks at the rest
+-- its result is `valueOfN`, whose `tupVals` takes the prefix; the reader path demands the closing brace
+after the last element it was asked for -- its result is the first element error if there is one, and
+the class `other` ("Expected sequence to be terminated with an end token") otherwise.  (On an array that
+is not longer both paths return `valueOfN`, an `invalid length` error for a shorter one included:
+`Fits.tup` in `C02_stream_eq_spec` / `C02_tape_eq_spec` / `C02_paths_agree`.) -/
+theorem C02_tuple_longer (enc : Enc) (f : Nat) (ts : List Ty) (vs : List Node) (o : Op)
+    (hall : ∀ t x, (t, x) ∈ List.zip ts (expandNodes vs) → FitsT enc false t x)
+    (hwf : (Node.arr vs).wf = true) (hlen : ts.length < (expandNodes vs).length) (hh : Ty.heightTs ts < f) :
+    (∀ (toks : List TTok) (i : Nat) (b : Bool), SitsAt toks i (tapeNode i (.arr vs)) →
+      tde enc toks (f + 1) (.tup ts) (vkOf b o i) = valueOfN enc (f + 1) (.tup ts) o (.arr vs)) ∧
+    (∀ (rest : List RTok),
+      sde enc (f + 1) (.tup ts) (nodeHead (.arr vs)) o (nodeTail (.arr vs) ++ rest) =
+        (match tupVals (fun t x => valueOfN enc f t .eq x) ts (expandNodes vs) with
+         | .error e => .error e
+         | .ok _ => .error .other)) :=
+  ⟨fun toks i b hsit => tde_tup_any_length enc toks f ts vs i b o hall hwf hsit hh,
+   fun rest => sde_tup_longer enc f ts vs o rest (fun t x hm => fitsT_fits enc (hall t x hm)) hwf hlen hh⟩
+
+/-- The recorded finding `tuple-longer-than-target` on the models, from the same BYTES
+`id=1 arr={ 1 2 3 }` into `st(id:u8; arr:(i32, i32))`: the tape path accepts and returns the prefix
+`(1, 2)`, the reader path refuses. -/
+theorem C02_tuple_longer_paths_differ :
+    ∃ (T : List TextTape.Tok) (b : Bool),
+      TextTape.parse Jomini.TextE2E.bytesTupleLong = .ok T b ∧
+      (TextReader.sliceTokens Jomini.TextE2E.bytesTupleLong).out = .end_ ∧
+      deTape .utf8 Jomini.TextE2E.tyTupleLong (Jomini.TextE2E.toTextDeTape T)
+        = .ok (.st [(Jomini.TextE2E.keyId, .uint 1), (Jomini.TextE2E.keyArr, .tup [.int 1, .int 2])]) ∧
+      deStream .utf8 Jomini.TextE2E.tyTupleLong
+          ((TextReader.sliceTokens Jomini.TextE2E.bytesTupleLong).toks.map Jomini.TextE2E.toRTok)
+        = .error .other := by
+  have h2 : deStream .utf8 Jomini.TextE2E.tyTupleLong
+      ((TextReader.sliceTokens Jomini.TextE2E.bytesTupleLong).toks.map Jomini.TextE2E.toRTok) = .error .other := by
+    rw [Jomini.TextE2E.tupleLong_lex.1]; rfl
+  exact ⟨_, _, Jomini.TextE2E.tupleLong_parse, Jomini.TextE2E.tupleLong_lex.2, by rfl, h2⟩
+
+/-- fitting length: equal values on both paths; a shorter array: both refuse (`invalid length`) -/
+example :
+    let ty : Ty := .st [([97], .tup [.i32, .str])]
+    let d2 : Doc := [(.plain [97], .eq, .arr [.leaf ⟨[53], false⟩, .leaf ⟨[120], true⟩])]
+    let d1 : Doc := [(.plain [97], .eq, .arr [.leaf ⟨[53], false⟩])]
+    deTape .utf8 ty (tapeOf d2) = .ok (.st [([97], .tup [.int 5, .str [120]])]) ∧
+    deStream .utf8 ty (lexemes d2) = .ok (.st [([97], .tup [.int 5, .str [120]])]) ∧
+    deTape .utf8 ty (tapeOf d1) = .error .other ∧ deStream .utf8 ty (lexemes d1) = .error .other := by
+  refine ⟨by rfl, by rfl, by rfl, by rfl⟩
+
 /-! ### every target type: error agreement and where it ends -/
 
 /-- Error agreement for EVERY root target type (not only fitting ones): for every well-formed
@@ -179,9 +296,9 @@ theorem C02_error_agreement (enc : Enc) (ty : Ty) (d : Doc) (hroot : Ty.isRoot t
 /-- the agreeing side of `C02_error_agreement` contains errors: an integer requested for an object,
 a struct requested for a scalar, an unparsable number -- both paths answer with the same error class -/
 example : deTape .utf8 (.st [([120], .i64), ([121], .st []), ([122], .u32)])
-      (tapeOf [([120], .eq, .obj []), ([121], .eq, .leaf ⟨[49], false⟩)]) = .error .type ∧
+      (tapeOf [(.plain [120], .eq, .obj []), (.plain [121], .eq, .leaf ⟨[49], false⟩)]) = .error .type ∧
     deStream .utf8 (.st [([120], .i64), ([121], .st []), ([122], .u32)])
-      (lexemes [([120], .eq, .obj []), ([121], .eq, .leaf ⟨[49], false⟩)]) = .error .type := by
+      (lexemes [(.plain [120], .eq, .obj []), (.plain [121], .eq, .leaf ⟨[49], false⟩)]) = .error .type := by
   constructor <;> rfl
 
 /-- the classification is exhaustive -/
@@ -210,18 +327,18 @@ theorem C02_divergent_witnesses :
 per token, operators included) -- so no shared `valueOf` exists there, while `any` on arrays of
 scalars / arrays / header values (any depth) is inside `Fits` and covered by every C02 theorem. -/
 theorem C02_any_on_object_paths_differ :
-    deTape .utf8 (.st [([120], .any)]) (tapeOf [([120], .eq, .obj [([97], .eq, .leaf ⟨[49], false⟩)])])
+    deTape .utf8 (.st [([120], .any)]) (tapeOf [(.plain [120], .eq, .obj [(.plain [97], .eq, .leaf ⟨[49], false⟩)])])
       = .ok (.st [([120], .map [(.str [97], .str [49])])]) ∧
-    deStream .utf8 (.st [([120], .any)]) (lexemes [([120], .eq, .obj [([97], .eq, .leaf ⟨[49], false⟩)])])
+    deStream .utf8 (.st [([120], .any)]) (lexemes [(.plain [120], .eq, .obj [(.plain [97], .eq, .leaf ⟨[49], false⟩)])])
       = .ok (.st [([120], .seq [.str [97], .str [61], .str [49]])]) := by
   constructor <;> rfl
 
 /-- `any` on nested arrays (with a header value inside): both paths, the spec's tree -/
 example : deTape .utf8 (.st [([120], .any)])
-      (tapeOf [([120], .eq, .arr [.leaf ⟨[49], false⟩, .arr [.leaf ⟨[50], true⟩], .hdr [114] (.arr [])])])
+      (tapeOf [(.plain [120], .eq, .arr [.leaf ⟨[49], false⟩, .arr [.leaf ⟨[50], true⟩], .hdr [114] (.arr [])])])
       = .ok (.st [([120], .seq [.str [49], .seq [.str [50]], .str [114], .seq []])]) ∧
     deStream .utf8 (.st [([120], .any)])
-      (lexemes [([120], .eq, .arr [.leaf ⟨[49], false⟩, .arr [.leaf ⟨[50], true⟩], .hdr [114] (.arr [])])])
+      (lexemes [(.plain [120], .eq, .arr [.leaf ⟨[49], false⟩, .arr [.leaf ⟨[50], true⟩], .hdr [114] (.arr [])])])
       = .ok (.st [([120], .seq [.str [49], .seq [.str [50]], .str [114], .seq []])]) := by
   constructor <;> rfl
 
